@@ -790,7 +790,17 @@ class TaskGroup(abc.TaskGroup):
                 if not self._tasks:
                     # If there are no child tasks to wait on, run at least one checkpoint
                     # anyway (new tasks may still be started during it)
-                    await AsyncIOBackend.cancel_shielded_checkpoint()
+                    try:
+                        await AsyncIOBackend.cancel_shielded_checkpoint()
+                    except CancelledError as exc:
+                        # The host task was cancelled natively; any tasks started during
+                        # the checkpoint still have to be cancelled and waited on
+                        self.cancel_scope.cancel()
+                        if exc_val is None or (
+                            isinstance(exc_val, CancelledError)
+                            and not is_anyio_cancellation(exc)
+                        ):
+                            exc_val = exc
 
                 if self._tasks:
                     with CancelScope() as wait_scope:
